@@ -31,22 +31,31 @@ RECURSIVE JoinStr(_)
 JoinStr(f) == IF Len(f) = 0 THEN "" ELSE IF Len(f) = 1 THEN f[1] ELSE f[1] \o "+" \o JoinStr(Tail(f))
 
 \* the regime of a mismatch: which representation switch the stream sits behind
+Multi(r) == r.kind = "merge" /\ (r.before.multi \/ r.after.multi)      \* a second host group somewhere in the stack
 Class(o, w, field) ==
     IF o.gr > 0 THEN "second-" \o o.gf \o "-hostgroup"
+    ELSE IF o.gx THEN "host-index-outside-" \o o.gf \o "-group"
     ELSE IF field \in DataFields /\ Len(w.feat) > 0 THEN JoinStr(w.feat)
     ELSE "plain"
 
-Say(r, pred, field, class, info) ==
-    PrintT("@@J" \o ToJson([fail |-> pred, key |-> pred \o "." \o field \o ":" \o class, tr |-> r.tr, name |-> r.name,
+\* key = narrow signature: what differs and behind which representation switch; the same wrong field of the
+\* same stream seen through AllStreams, StreamByID, StreamByFirstPacketSource or a merge is ONE signature
+SayK(r, pred, key, info) ==
+    PrintT("@@J" \o ToJson([fail |-> pred, key |-> key, tr |-> r.tr, name |-> r.name,
                             src |-> r.src, regimes |-> r.regimes, info |-> info]))
+Say(r, pred, field, class, info) == SayK(r, pred, pred \o "." \o field \o ":" \o class, info)
 Chk(cond, r, pred, field, class, info) == cond \/ Say(r, pred, field, class, info)
+FieldName(f) == IF f \in {"ch", "sh"} THEN "hosts" ELSE IF f \in {"npk", "pkts", "pk1"} THEN "packets"
+                ELSE IF f \in {"cb", "sb", "c", "s", "runs"} THEN "payload" ELSE IF f \in {"first", "last"} THEN "times" ELSE f
 
 \* observed record o against written record w
+RClass(r, o, w, field) == IF Multi(r) /\ o.gr = 0 THEN "second-hostgroup-in-stack" ELSE Class(o, w, field)
 SameStream(o, w, r, pred) ==
-    /\ Chk(o.err = "", r, pred, "error", Class(o, w, "err"), [id |-> w.id, got |-> o.err])
+    /\ o.err = "" \/ SayK(r, pred, "error:" \o RClass(r, o, w, "pkts"), [id |-> w.id, got |-> o.err])
     /\ o.err # "" \/ \A i \in 1 .. Len(Fields) :
-          Chk(o[Fields[i]] = w[Fields[i]], r, pred, Fields[i], Class(o, w, Fields[i]),
-              [id |-> w.id, got |-> ToString(o[Fields[i]]), want |-> ToString(w[Fields[i]])])
+          o[Fields[i]] = w[Fields[i]] \/
+          SayK(r, pred, FieldName(Fields[i]) \o ":" \o RClass(r, o, w, Fields[i]),
+               [id |-> w.id, field |-> Fields[i], got |-> ToString(o[Fields[i]]), want |-> ToString(w[Fields[i]])])
 
 ById(recs, id) == CHOOSE x \in Range(recs) : x.id = id
 Ids(recs) == {recs[i].id : i \in 1 .. Len(recs)}
@@ -106,21 +115,24 @@ Visible(r) ==
        /\ VisibleIs(r, r.before.viasearch, "VisibleBefore.search", r.before.err)
        /\ VisibleIs(r, r.after.visible, "Visible", r.after.err)
        /\ VisibleIs(r, r.after.viasearch, "Visible.search", r.after.err)
-       /\ Chk(r.before.filldig = r.fillexpect /\ r.before.nfill = r.nfillexpect, r, "VisibleBefore", "many-hosts", "plain",
-              [got |-> r.before.filldig, want |-> r.fillexpect])
-       /\ Chk(r.after.filldig = r.fillexpect /\ r.after.nfill = r.nfillexpect, r, "Visible", "many-hosts", "plain",
-              [got |-> r.after.filldig, want |-> r.fillexpect])
+       /\ Chk(r.before.filldig = r.fillexpect /\ r.before.nfill = r.nfillexpect, r, "VisibleBefore", "many-hosts",
+              IF Multi(r) THEN "second-hostgroup-in-stack" ELSE "plain", [got |-> r.before.filldig, want |-> r.fillexpect])
+       /\ Chk(r.after.filldig = r.fillexpect /\ r.after.nfill = r.nfillexpect, r, "Visible", "many-hosts",
+              IF Multi(r) THEN "second-hostgroup-in-stack" ELSE "plain", [got |-> r.after.filldig, want |-> r.fillexpect])
 
+\* a stream that sits in a second host group of its family is read (or was written) through the defective host
+\* tables of C01; searches that look at hosts then differ as a consequence - one signature for all of them
+SearchKey(r, s, what) == IF s.host /\ Multi(r) THEN "Searches.by-host:second-hostgroup-in-stack" ELSE "Searches." \o what \o ":" \o s.qk
 Searches(r) ==
     r.err # "" \/ r.before.err # "" \/ r.after.err # "" \/
     /\ Chk(Len(r.before.searches) = Len(r.after.searches), r, "Searches", "battery", "plain", [n |-> Len(r.before.searches)])
     /\ \A i \in 1 .. Len(r.before.searches) : i > Len(r.after.searches) \/
          LET b == r.before.searches[i]  a == r.after.searches[i] IN
-         /\ Chk(a.err = b.err, r, "Searches", "error", a.qk, [q |-> a.q, before |-> b.err, after |-> a.err])
-         /\ Chk(a.keys = b.keys, r, "Searches", "order", a.qk, [q |-> a.q, before |-> b.keys, after |-> a.keys])
-         /\ Chk(a.ids = b.ids /\ a.more = b.more, r, "Searches", "result", a.qk, [q |-> a.q, before |-> b.ids, after |-> a.ids])
+         /\ a.err = b.err \/ SayK(r, "Searches", SearchKey(r, a, "error"), [q |-> a.q, before |-> b.err, after |-> a.err])
+         /\ a.keys = b.keys \/ SayK(r, "Searches", SearchKey(r, a, "order"), [q |-> a.q, before |-> b.keys, after |-> a.keys])
+         /\ (a.ids = b.ids /\ a.more = b.more) \/ SayK(r, "Searches", SearchKey(r, a, "result"), [q |-> a.q, before |-> b.ids, after |-> a.ids])
 
-InputsIntact(r) == r.err # "" \/ Chk(r.inputs = "", r, "InputsIntact", "reader", "plain", [what |-> r.inputs])
+InputsIntact(r) == r.err # "" \/ Chk(r.inputs = "", r, "InputsIntact", "reader", IF Multi(r) THEN "second-hostgroup-in-stack" ELSE "plain", [what |-> r.inputs])
 
 (***************************************************************************)
 RowOK(r) ==
